@@ -331,9 +331,9 @@ try {
             char* pbuf = buf;
             pbuf += snprintf(pbuf, 1024, "#%04d ", i);
             if (vchPushValue.size() > 0) {
-                snprintf(pbuf, 1024 + pbuf - buf, "%s", HexStr(std::vector<uint8_t>(vchPushValue.begin(), vchPushValue.end())).c_str());
+                snprintf(pbuf, 1024 - (pbuf - buf), "%s", HexStr(std::vector<uint8_t>(vchPushValue.begin(), vchPushValue.end())).c_str());
             } else {
-                snprintf(pbuf, 1024 + pbuf - buf, "%s", GetOpName(opcode).c_str());
+                snprintf(pbuf, 1024 - (pbuf - buf), "%s", GetOpName(opcode).c_str());
             }
             script_lines[i++] = strdup(buf);
         }
